@@ -1,16 +1,22 @@
 #!/usr/bin/env bash
 # Evaluate a seeded change: usage eval_seed.sh <Cxx> [extra check ids...]
-# Expects /tmp/seed-<Cxx>/SEED/{patch.diff,meta.json,demo/} with the mutation applied in that worktree.
-# 1. copies the deliverables to /verif/seeded/<Cxx>/  2. runs the registered check(s) against the mutated
-# worktree (scripts/run_against.sh; /repo is not touched)  3. prints a verdict line.
+# Takes /verif/seeded/<Cxx>/patch.diff (or, first time, /tmp/seed-<Cxx>/SEED/*), applies it to a FRESH
+# worktree of /repo's current HEAD (so hooks and fixes are present), runs the registered check(s)
+# against it with scripts/run_against.sh (/repo itself is not touched) and prints a verdict line.
 set -u
 P="$1"; shift
-WT="/tmp/seed-$P"
 OUT="/verif/seeded/$P"
 mkdir -p "$OUT"
-cp "$WT/SEED/patch.diff" "$OUT/patch.diff" || exit 2
-cp "$WT/SEED/meta.json" "$OUT/meta.agent.json" 2>/dev/null
-rm -rf "$OUT/demo"; cp -r "$WT/SEED/demo" "$OUT/demo" 2>/dev/null
+if [ -f "/tmp/seed-$P/SEED/patch.diff" ]; then
+  cp "/tmp/seed-$P/SEED/patch.diff" "$OUT/patch.diff"
+  cp "/tmp/seed-$P/SEED/meta.json" "$OUT/meta.agent.json" 2>/dev/null
+  rm -rf "$OUT/demo"; cp -r "/tmp/seed-$P/SEED/demo" "$OUT/demo" 2>/dev/null
+fi
+[ -f "$OUT/patch.diff" ] || { echo "no patch for $P"; exit 2; }
+WT="/tmp/evalwt-$P"
+git -C /repo worktree remove --force "$WT" 2>/dev/null; rm -rf "$WT"
+git -C /repo worktree add -q "$WT" HEAD || exit 2
+if ! git -C "$WT" apply "$OUT/patch.diff"; then echo "seed=$P patch does not apply to current HEAD"; git -C /repo worktree remove --force "$WT"; exit 2; fi
 for C in "$P" "$@"; do
   LOG="$OUT/check_$C.log"
   ( /verif/scripts/run_against.sh "$WT" "$C" --tier quick ) >"$LOG" 2>&1
@@ -18,3 +24,4 @@ for C in "$P" "$@"; do
   echo "seed=$P check=$C rc=$RC violations=$(grep -c '^VIOLATION' "$LOG") :: $(tail -1 "$LOG")"
   grep -m3 "signature=" "$LOG" | sed 's/^/    /'
 done
+git -C /repo worktree remove --force "$WT"; rm -rf "/tmp/rvtarget-evalwt-$P"
